@@ -273,7 +273,9 @@ def layouts(ctx, prog, rule):
     n_fields += len(want)
     # reader validation constants
     consts = _validated_consts(fr, r)
-    ctx.ob(rule, "layout/file_header/validated-constants", consts == spec["constants"], "Header::read rejects everything but %s (spec %s)" % (consts, spec["constants"]))
+    # no constant test at all found on an error-guarding switch: the validation is spelled in a way this rule does not
+    # read (a table of computed comparisons): undecided, not a violation
+    ctx.ob(rule, "layout/file_header/validated-constants", (consts == spec["constants"]) if consts else None, "Header::read rejects everything but %s (spec %s)" % (consts, spec["constants"]))
     # ---- compressed vector section header
     spec = SPEC["cv_section_header"]
     fr = prog.fn("cv_section::CompressedVectorSectionHeader::read")
